@@ -40,7 +40,7 @@ def merge_cov(model, emit, rep, extra=None):
 # ---------------------------------------------------------------------------------------------
 # Store family: C04, C05, C12
 
-def store_family(pid, cfg, replay_args, rule, exhaustive_note, workers=8):
+def store_family(pid, cfg, replay_args, rule, exhaustive_note, workers=8, extra_cfgs=None):
     vh = build_harness()
     check_alphabet(vh)
     model = run_tlc("MCStore", cfg + ".cfg", timeout=1500, workers=workers)
@@ -48,8 +48,23 @@ def store_family(pid, cfg, replay_args, rule, exhaustive_note, workers=8):
     emit = run_tlc("MCStore", cfg + "_emit.cfg", timeout=1500, workers=workers)
     tlc_must_pass(emit, "Store.tla emitter (%s)" % cfg)
     rc, rep = harness_run(vh, ["store-replay", emit["out"], "@REPORT", "seed=%d" % seed()] + replay_args)
+    further = {}
+    for xcfg, xargs, what in (extra_cfgs or []):
+        xm = run_tlc("MCStore", xcfg + ".cfg", timeout=1500, workers=workers)
+        tlc_must_pass(xm, "Store.tla P-layer invariants and action properties (%s)" % xcfg)
+        xe = run_tlc("MCStore", xcfg + "_emit.cfg", timeout=1500, workers=workers)
+        tlc_must_pass(xe, "Store.tla emitter (%s)" % xcfg)
+        rcx, repx = harness_run(vh, ["store-replay", xe["out"], "@REPORT", "seed=%d" % seed()] + xargs)
+        rep["evaluations"] += repx["evaluations"]
+        rep["distinct_nontrivial"] += repx["distinct_nontrivial"]
+        rep["violations"] = (rep["violations"] or []) + (repx["violations"] or [])
+        rep["inconclusive"] = (rep.get("inconclusive") or []) + (repx.get("inconclusive") or [])
+        rep["model_drift"] = (rep.get("model_drift") or []) + (repx.get("model_drift") or [])
+        further[xcfg] = "%s: %d states, %d replayed paths" % (what, xm["distinct"], repx["evaluations"])
     cov = merge_cov(model, emit, rep, {"rule": rule, "exhaustive": True, "explanation": exhaustive_note,
                                        "replay_args": replay_args})
+    if further:
+        cov["further_configurations"] = further
     if pid == "C04" and "_storei" in globals():
         cov["i_layer_StoreI_refinement"] = _storei
     if not rep["samples"]:
@@ -104,6 +119,11 @@ def check_C05():
                      "as quick with MaxSecs=3 and histories <= 4", "complete graph MaxSecs=3", workers=16)
 
 
+RES_EXTRA = [("Store_resx", ["depth=4", "tail=0", "cover=0", "c05=1", "c12=1", "ops=put,discard,finalize,reopen"],
+              "resumption over a 16 KiB block (longer than any read-ahead buffer) that is not the last section, and over a block whose data does not hash to its CID "
+              "(the stores do not verify what they are given: neither may a resume)")]
+
+
 def check_C12():
     if tier() == "quick":
         store_family("C12", "Store_res", ["depth=5", "tail=0", "cover=0", "c05=1", "c12=1", "ops=put,discard,finalize,reopen"],
@@ -111,10 +131,10 @@ def check_C12():
                      "padding | data padding beyond the end of the file | other version)} of length <= 5 x 16 option sets (thorough: 24) x 4 root lists (incl. duplicate roots) x both stores; the final file "
                      "of each resumed session is compared byte-for-byte with the uninterrupted real session and with the specification's layout; "
                      "a refused reopen must leave the file bytes unchanged",
-                     "complete P-layer graph for MaxSecs=4; all such paths <= 5 replayed")
+                     "complete P-layer graph for MaxSecs=4; all such paths <= 5 replayed", extra_cfgs=RES_EXTRA)
     else:
         store_family("C12", "Store_res6", ["depth=6", "tail=0", "cover=1", "c05=1", "c12=1", "ops=put,discard,finalize,reopen"],
-                     "as quick with interleavings of length <= 6", "complete graph MaxSecs=4; all such paths <= 6", workers=16)
+                     "as quick with interleavings of length <= 6", "complete graph MaxSecs=4; all such paths <= 6", workers=16, extra_cfgs=RES_EXTRA)
 
 
 def replay_generic(pid, path):
